@@ -1959,6 +1959,10 @@ struct StressRound {
     /// live entity ids of the key after the writers were joined, before the delete
     live_after_puts: usize,
     checker: Vec<Res>,
+    /// how many writers of the round went past the fast path of `try_get_or_create` (counted by the
+    /// yield point inside it; always 0 on a tree without that hook): 2 or more = the window was open,
+    /// only the double-check under the write locks stood between the round and a second live id
+    fast_path_misses: usize,
 }
 
 fn stress_programs(mode: StressMode, threads: usize, key: Key) -> Vec<Vec<Op>> {
@@ -1989,10 +1993,17 @@ fn stress_first_puts(mode: StressMode, threads: usize, rounds: usize, first_id: 
     let lined_up = Arc::new(AtomicUsize::new(0));
     let stop = Arc::new(AtomicBool::new(false));
     let put_results: Arc<Mutex<Vec<Res>>> = Arc::new(Mutex::new(vec![Res::Nf; threads]));
+    let misses = Arc::new(AtomicUsize::new(0));
     let mut workers = Vec::new();
     for t in 0..threads {
-        let (store, start, done, lined_up, stop, keys, put_results) = (store.clone(), start.clone(), done.clone(), lined_up.clone(), stop.clone(), keys.clone(), put_results.clone());
+        let (store, start, done, lined_up, stop, keys, put_results, misses) = (store.clone(), start.clone(), done.clone(), lined_up.clone(), stop.clone(), keys.clone(), put_results.clone(), misses.clone());
         workers.push(std::thread::spawn(move || {
+            // free-running: the hook only counts
+            tensor_store::verif::set_yield_hook(Some(Box::new(move |site, _| {
+                if site == SITE_INDEX_MISS {
+                    misses.fetch_add(1, Ordering::SeqCst);
+                }
+            })));
             for (round, key) in keys.iter().enumerate() {
                 let op = stress_programs(mode, threads, *key)[t][0];
                 start.wait();
@@ -2024,8 +2035,9 @@ fn stress_first_puts(mode: StressMode, threads: usize, rounds: usize, first_id: 
         // every put of this round has returned: from here on one thread, sequentially
         let progs = stress_programs(mode, threads, key);
         let live_after_puts = live_ids_of(&store, &key.real());
+        let fast_path_misses = misses.swap(0, Ordering::SeqCst);
         let checker: Vec<Res> = progs[threads].iter().map(|op| exec(&store, op)).collect();
-        let r = StressRound { key, progs, put_results: put_results.lock().unwrap().clone(), live_after_puts, checker };
+        let r = StressRound { key, progs, put_results: put_results.lock().unwrap().clone(), live_after_puts, checker, fast_path_misses };
         let hit = fails(&r);
         out.push(r);
         if hit && stop_at_first {
@@ -2105,12 +2117,16 @@ impl Ctx<'_> {
             self.rep.case(&stream, if round == 0 { Some(&line) } else { None });
             self.rep.hit(&format!("stress:writers:{threads}"));
             self.rep.hit(&format!("stress:{}", mode.name()));
+            if r.fast_path_misses >= 2 {
+                self.rep.hit("stress:round_in_which_two_writers_missed_the_fast_path");
+            }
             let input = |threads: usize, r: &StressRound, line: &str| {
                 json!({"line": line, "stress": {"mode": mode.name(), "writers": threads, "rounds": rounds},
                        "what_runs": format!("{threads} free-running threads, lined up on a spin barrier, each put {} once (never put before / deleted in the round before); after they have returned one thread runs: {}", r.key.real(), show_progs(&r.progs[threads..])),
                        "key": r.key.real(), "round": round,
                        "puts": show_progs(&r.progs[..threads]), "put_results": r.put_results.iter().map(|x| x.show()).collect::<Vec<_>>().join(","),
                        "live_entity_ids_of_the_key_after_the_puts": r.live_after_puts,
+                       "writers_past_the_fast_path_of_get_or_create": r.fast_path_misses,
                        "checker_results": r.checker.iter().zip(r.progs[threads].iter()).map(|(x, op)| format!("{} -> {}", op.show(), x.show())).collect::<Vec<_>>()})
             };
             self.rep.compare(&format!("{stream}.checker_results"), || input(threads, r, &line), &got, &want);
